@@ -39,14 +39,29 @@ StatedDistance(s) ==
        ELSE IF Len(ds) > 6 THEN -1
        ELSE ValD(ds, 0)
 
-\* relay "NxLEG": number of legs and the leg distance when the leg is a bare integer (optionally + H)
+\* relay "NxLEG": number of legs and the leg distance in metres, for the numeric legs PAT_RELAYS accepts
+\* (digits[.digits] optionally followed by H, K or M).  get_distance computes int(float(qty) * unit) in binary
+\* floating point, so with a decimal point the truncated result may be one metre short of the exact value:
+\* the leg is exact - tol .. exact.  leg = -1: not a numeric leg / outside the range modelled (32-bit TLC ints).
+RECURSIVE PadMilli(_, _)
+PadMilli(fr, n) == IF n = 0 THEN <<>> ELSE IF fr = <<>> THEN <<0>> \o PadMilli(fr, n - 1) ELSE <<Head(fr)>> \o PadMilli(Tail(fr), n - 1)
 RelayParts(s) ==
     LET w == W(s)
         n == LeadDigits(w)
         after == SubSeq(w, Len(n) + 2, Len(w))        \* skip the X
-        leg == LeadDigits(after)
-        tail == SubSeq(after, Len(leg) + 1, Len(after))
-    IN [legs |-> ValD(n, 0), leg |-> IF leg # <<>> /\ Len(leg) <= 5 /\ tail \in {<<>>, <<72>>} THEN ValD(leg, 0) ELSE -1]
+        ip == LeadDigits(after)
+        r1 == SubSeq(after, Len(ip) + 1, Len(after))
+        dot == r1 # <<>> /\ Head(r1) = 46
+        fr == IF dot THEN LeadDigits(Tail(r1)) ELSE <<>>
+        tail == IF dot THEN SubSeq(r1, Len(fr) + 2, Len(r1)) ELSE r1
+        milli == ValD(ip, 0) * 1000 + ValD(PadMilli(fr, 3), 0)      \* thousandths, truncated
+        tol == IF dot THEN 1 ELSE 0
+        none == [legs |-> ValD(n, 0), leg |-> -1, tol |-> 0]
+    IN IF ip = <<>> \/ (dot /\ fr = <<>>) THEN none
+       ELSE IF tail \in {<<>>, <<72>>} THEN (IF Len(ip) <= 5 THEN [legs |-> ValD(n, 0), leg |-> ValD(ip, 0), tol |-> 0] ELSE none)
+       ELSE IF tail = <<75>> THEN (IF Len(ip) <= 3 THEN [legs |-> ValD(n, 0), leg |-> milli, tol |-> tol] ELSE none)
+       ELSE IF tail = <<77>> THEN (IF Len(ip) <= 3 /\ Len(fr) <= 3 THEN [legs |-> ValD(n, 0), leg |-> (1609 * milli) \div 1000, tol |-> tol] ELSE none)
+       ELSE none
 
 \* lexicographic order on code-point sequences (= Python str order)
 RECURSIVE LexLess(_, _)
